@@ -1,6 +1,54 @@
-//! Kani harnesses for core/src/hasher.rs (compiled into the real crate only under cfg(kani)).
+//! Kani twins of the Verus unit v7_hasher: the same contracts checked by CBMC on the compiled
+//! functions, loop-free over full-domain symbolic inputs (complete), and the source of concrete
+//! counterexamples for replay.
 #![allow(unused_imports, dead_code)]
 use super::*;
+
+struct AnyHash;
+impl BinaryHash for AnyHash {
+    // an arbitrary function: every call returns a fresh symbolic value
+    fn hash(_input: &[u8]) -> [u8; 32] {
+        kani::any()
+    }
+    fn hash2_32_concat(_l: &[u8; 32], _r: &[u8; 32]) -> [u8; 32] {
+        kani::any()
+    }
+}
+type HH = BinaryHasher<AnyHash>;
+
+fn spec_kind(n: &Node) -> NodeKind {
+    if n[0] >= 128 {
+        NodeKind::Leaf
+    } else if n.iter().all(|b| *b == 0) {
+        NodeKind::Terminator
+    } else {
+        NodeKind::Internal
+    }
+}
+
+#[kani::proof]
+#[kani::unwind(34)]
+fn node_kind_matches_spec() {
+    let n: Node = kani::any();
+    assert!(node_kind_by_msb(&n) == spec_kind(&n));
+    assert!(HH::node_kind(&n) == spec_kind(&n));
+    assert!(node_kind_by_msb(&TERMINATOR) == NodeKind::Terminator);
+    kani::cover!(spec_kind(&n) == NodeKind::Internal, "internal reachable");
+}
+
+#[kani::proof]
+#[kani::unwind(34)]
+fn leaf_and_internal_hashes_are_domain_separated() {
+    let leaf = LeafData { key_path: kani::any(), value_hash: kani::any() };
+    let internal = InternalData { left: kani::any(), right: kani::any() };
+    let hl = HH::hash_leaf(&leaf);
+    let hi = HH::hash_internal(&internal);
+    assert!(HH::node_kind(&hl) == NodeKind::Leaf);
+    assert!(HH::node_kind(&hi) != NodeKind::Leaf);
+    assert!(hl != hi);
+    assert!(hl != TERMINATOR);
+    kani::cover!(HH::node_kind(&hi) == NodeKind::Internal, "internal reachable");
+}
 
 #[cfg(test)]
 include!("/verif/.build/playback/core_hasher.inc");
